@@ -5,11 +5,13 @@ package main
 // installed through a watch reactor of the generated fake clientset; every step is a rendezvous with a deadline.
 
 import (
+	"bytes"
 	"context"
 	"encoding/json"
 	"flag"
 	"fmt"
 	"os"
+	"os/exec"
 	"runtime"
 	"strings"
 	"sync"
@@ -67,6 +69,7 @@ func runWatch(ops []string) map[string]interface{} {
 	closed := false   // source channel closed by us
 	srcEnded := false // we closed the source stream
 	outcomes := [][]interface{}{}
+	sentObjs := map[string]string{} // what the source sent, as JSON without apiVersion/kind
 	nsent := 0
 	closeSrc := func() {
 		if !closed {
@@ -98,9 +101,20 @@ func runWatch(ops []string) map[string]interface{} {
 				ev.Object = &apps.StatefulSet{ObjectMeta: metav1.ObjectMeta{ResourceVersion: name}}
 			default:
 				r := int32(nsent)
-				ev.Object = &apps.StatefulSet{TypeMeta: metav1.TypeMeta{Kind: "StatefulSet", APIVersion: "apps.pingcap.com/v1"},
+				o := &apps.StatefulSet{TypeMeta: metav1.TypeMeta{Kind: "StatefulSet", APIVersion: "apps.pingcap.com/v1"},
 					ObjectMeta: metav1.ObjectMeta{Name: name, Namespace: NS, Labels: map[string]string{"k": name}}, Spec: apps.StatefulSetSpec{Replicas: &r, ServiceName: name}}
+				if nsent%2 == 1 {
+					// odd events carry more than even ones (slots, a partition, status counters): whatever a later, sparser
+					// object lacks must be absent from what is relayed for it
+					part := int32(nsent)
+					o.Annotations = map[string]string{helper.DeleteSlotsAnn: "[1]"}
+					o.Spec.UpdateStrategy = apps.StatefulSetUpdateStrategy{Type: apps.RollingUpdateStatefulSetStrategyType,
+						RollingUpdate: &apps.RollingUpdateStatefulSetStrategy{Partition: &part}}
+					o.Status.ReadyReplicas, o.Status.Replicas = 2, 3
+				}
+				ev.Object = o
 			}
+			sentObjs[name] = payloadJSON(ev.Object)
 			select {
 			case src.ch <- ev:
 				outcomes = append(outcomes, []interface{}{"sent", name, true})
@@ -131,6 +145,11 @@ func runWatch(ops []string) map[string]interface{} {
 						okPayload = strings.HasPrefix(o.Name, "obj-") && o.Labels["k"] == o.Name && o.Spec.ServiceName == o.Name && o.APIVersion == "apps/v1"
 					}
 					oname = o.Name + o.ResourceVersion
+					// ... and nothing but the fields of the object that was sent (the two types share their JSON form)
+					if os.Getenv("VERIF_DEBUG") != "" && payloadJSON(o) != sentObjs[oname] {
+						fmt.Fprintf(os.Stderr, "SENT %s\nGOT  %s\n", sentObjs[oname], payloadJSON(o))
+					}
+					okPayload = okPayload && payloadJSON(o) == sentObjs[oname]
 				case *metav1.Status:
 					okPayload = kind == "Error" && o.Code == 410
 					oname = o.Message
@@ -204,6 +223,111 @@ func runWatch(ops []string) map[string]interface{} {
 		"stopped": stopped, "srcEnded": srcEnded, "panics": int(atomic.LoadInt32(&watchPanics) - before)}
 }
 
+// payloadJSON: the object's JSON without apiVersion and kind.
+func payloadJSON(o interface{}) string {
+	b, _ := json.Marshal(o)
+	var m map[string]interface{}
+	json.Unmarshal(b, &m)
+	delete(m, "apiVersion")
+	delete(m, "kind")
+	if st, ok := m["status"].(map[string]interface{}); ok {
+		delete(st, "availableReplicas") // a field of the built-in type the Advanced one does not have (always emitted)
+	}
+	b, _ = json.Marshal(m)
+	return string(b)
+}
+
+// stopStorm: Stop is called by several parties at the same moment (the consumer from several goroutines, the relay
+// itself because the source ended); rounds fresh watches, three concurrent Stop calls each, half of the rounds with the
+// source ending at the same time. A panic (double close) is recovered per goroutine and counted.
+func stopStorm(rounds int) map[string]interface{} {
+	panics, badStops, open := int32(0), 0, 0
+	before := atomic.LoadInt32(&watchPanics)
+	for r := 0; r < rounds; r++ {
+		pc := pcfake.NewSimpleClientset()
+		src := &srcWatch{ch: make(chan watch.Event), done: make(chan struct{})}
+		pc.PrependWatchReactor("statefulsets", func(a core.Action) (bool, watch.Interface, error) { return true, src, nil })
+		hc := helper.NewHijackClient(kubefake.NewSimpleClientset(), pc)
+		w, err := hc.AppsV1().StatefulSets(NS).Watch(context.TODO(), metav1.ListOptions{})
+		if err != nil {
+			continue
+		}
+		// a spinning barrier releases all parties within nanoseconds of each other
+		var ready int32
+		parties := int32(3)
+		if r%2 == 1 {
+			parties = 4
+		}
+		meet := func() {
+			atomic.AddInt32(&ready, 1)
+			for atomic.LoadInt32(&ready) < parties {
+			}
+		}
+		var wg sync.WaitGroup
+		for g := 0; g < 3; g++ {
+			wg.Add(1)
+			go func() {
+				defer wg.Done()
+				defer func() {
+					if recover() != nil {
+						atomic.AddInt32(&panics, 1)
+					}
+				}()
+				meet()
+				w.Stop()
+			}()
+		}
+		if r%2 == 1 {
+			wg.Add(1)
+			go func() { defer wg.Done(); meet(); close(src.ch) }()
+		}
+		wg.Wait()
+		// the result channel is closed shortly after
+		select {
+		case _, ok := <-w.ResultChan():
+			if ok {
+				open++
+			}
+		case <-time.After(500 * time.Millisecond):
+			open++
+		}
+		if n := atomic.LoadInt32(&src.stops); n != 1 {
+			badStops++
+		}
+		if r%2 == 0 {
+			close(src.ch)
+		}
+	}
+	return map[string]interface{}{"storm": true, "rounds": rounds, "panics": int(panics) + int(atomic.LoadInt32(&watchPanics)-before),
+		"badStops": badStops, "notClosed": open}
+}
+
+// stormInChild runs the storm in a process of its own: a panic in the relay goroutine (which nothing can recover) kills
+// that process, and is then reported as what it is - a panic - instead of taking the driver down.
+func stormInChild(rounds int) map[string]interface{} {
+	cmd := exec.Command(os.Args[0], "watch", "--storm-child", "--storm", fmt.Sprint(rounds))
+	var so, se bytes.Buffer
+	cmd.Stdout, cmd.Stderr = &so, &se
+	err := cmd.Run()
+	st := map[string]interface{}{}
+	if err == nil && json.Unmarshal(bytes.TrimSpace(so.Bytes()), &st) == nil {
+		for _, k := range []string{"panics", "badStops", "notClosed", "rounds"} {
+			if f, ok := st[k].(float64); ok {
+				st[k] = int(f)
+			}
+		}
+		return st
+	}
+	msg := se.String()
+	if i := strings.Index(msg, "panic:"); i >= 0 {
+		msg = msg[i:]
+	}
+	if len(msg) > 300 {
+		msg = msg[:300]
+	}
+	return map[string]interface{}{"storm": true, "rounds": rounds, "panics": 1, "badStops": 0, "notClosed": 0, "crashed": msg}
+}
+
 func relayGoroutines() int {
 	buf := make([]byte, 1<<24)
 	n := runtime.Stack(buf, true)
@@ -216,7 +340,16 @@ func cmdWatch(args []string) {
 	workers := fs.Int("workers", 32, "")
 	out := fs.String("out", "", "")
 	one := fs.String("ops", "", "replay one schedule (JSON list)")
+	storm := fs.Int("storm", 20000, "rounds of three concurrent Stop calls on a fresh watch")
+	stormChild := fs.Bool("storm-child", false, "internal: run only the storm and print its result")
 	fs.Parse(args)
+	if *stormChild {
+		silenceKlog()
+		catchRelayPanics()
+		b, _ := json.Marshal(stopStorm(*storm))
+		fmt.Println(string(b))
+		return
+	}
 	os.MkdirAll(*out, 0o755)
 	silenceKlog()
 	catchRelayPanics()
@@ -296,10 +429,18 @@ func cmdWatch(args []string) {
 	// the global goroutine census goes into a record of its own
 	shards[0].write(map[string]interface{}{"ops": []string{}, "outcomes": [][]interface{}{}, "resClosed": true, "pendingAfter": 0, "srcStops": 1, "stopped": true,
 		"srcEnded": false, "panics": 0, "leaked": leaked, "census": true})
+	// concurrent Stop calls (the schedules above call Stop one at a time)
+	st := stormInChild(*storm)
+	stops := 1
+	if st["badStops"].(int) > 0 {
+		stops = 2
+	}
+	shards[1].write(map[string]interface{}{"ops": []string{}, "outcomes": [][]interface{}{}, "resClosed": st["notClosed"].(int) == 0, "pendingAfter": 0,
+		"srcStops": stops, "stopped": true, "srcEnded": false, "panics": st["panics"], "leaked": 0, "storm": st})
 	for _, s := range shards {
 		s.close()
 	}
-	b, _ := json.Marshal(map[string]interface{}{"records": len(scheds) + 1, "exhaustive": true, "leaked_goroutines_total": leaked,
+	b, _ := json.Marshal(map[string]interface{}{"records": len(scheds) + 2, "exhaustive": true, "leaked_goroutines_total": leaked, "stop_storm": st,
 		"domain": fmt.Sprintf("all schedules of length <= %d over send(5 kinds)/recv/stop/close, <=3 sends, <=2 stops", *depth)})
 	os.WriteFile(*out+"/meta.json", b, 0o644)
 	fmt.Println(string(b))
